@@ -8,8 +8,9 @@ import re
 
 from .. import common
 from .. import gen_text as gt
-from ..gen_values import gen_config, make_encoder
+from ..gen_values import gen_config, gen_module, make_encoder
 from ..normalise import clone, compare, rules_for
+from ..roundtrip import describe
 from ..textrun import load
 from .c08 import assignments
 
@@ -19,7 +20,8 @@ RULE = (
     "layout (incl. loader-only values: empty-value placeholders, leap-second "
     "strings, units on sequences, mixed-case keywords, quoted value-like "
     "strings, folded multi-line strings), every tests/data label, and "
-    "token-deleted variants that still load; x 4 encoders (default and "
+    "token-deleted variants that still load, and texts written by the four "
+    "encoders (random options) from generated modules; x 4 encoders (default and "
     "random options). distinct = (source id, encoder, options); non-trivial "
     "= the encoder accepted the module"
 )
@@ -110,11 +112,18 @@ def cycle(rec, pvl, t0, src, wit0, rng):
         wit["t1"] = t1[:1500]
         if st2 != "ok":
             rec.violation(CHECK, dialect, "dumped-text-does-not-load",
-                          {**feats, "lib": st2}, wit, f"{st2}: {m2}"[:300])
+                          {**feats, "lib": st2, **_dash_block_features(m1, t1)},
+                          wit, f"{st2}: {m2}"[:300])
             continue
         diff = compare(m1, m2, rules_for(dialect, "default"))
         if diff:
-            rec.violation(CHECK, dialect, "second-load-differs", feats, wit,
+            f2 = dict(feats)
+            if len(diff) == 4:      # a leaf: say what kind of value changed into what
+                f2["value"] = describe(diff[2], dialect)
+                f2["became"] = type(diff[3]).__name__
+            else:
+                f2.update(_dash_block_features(m1, t1))
+            rec.violation(CHECK, dialect, "second-load-differs", f2, wit,
                           f"{diff[0]}: {diff[1]}"[:300])
             continue
         if getattr(m2, "errors", None):
@@ -137,6 +146,24 @@ def cycle(rec, pvl, t0, src, wit0, rng):
                 continue
             rec.count("equal_up_to_set_order")
         rec.count(f"stable[{dialect}]")
+
+
+def _dash_block_features(m1, t1):
+    """Input features for the listed dash-continuation mechanism: the module
+    has a block whose name ends in '-', and the encoder wrote that name as the
+    last thing on a line (no statement delimiter behind it)."""
+    names = []
+
+    def walk(c):
+        for k, v in list(c):
+            if isinstance(v, dict):
+                names.append(k)
+                walk(v)
+    walk(m1)
+    dash = [k for k in names if k.endswith("-")]
+    at_eol = any(re.search(r"=\s*" + re.escape(k) + r"\r?\n", t1) for k in dash)
+    return {"block_name_ends_with_dash": bool(dash),
+            "dash_name_at_end_of_line": at_eol}
 
 
 def _first_diff(a, b):
@@ -180,6 +207,33 @@ def shard(i, n, tier, seed, rec, hb):
                 toks = [t for k, t in enumerate(toks) if k not in drop]
         t0 = gt.render(toks, gt.gen_layout(rng, toks, "default", "wild"))
         cycle(rec, pvl, t0, f"generated:{key}", {"seed": key}, rng)
+    # texts written by the encoders themselves (any dialect, any options) from
+    # generated modules: load with the default loader, re-encode in every
+    # dialect (cross-dialect chains; values the text generator does not spell:
+    # zoned times, quantities around strings, frozen sets of mixed types ...)
+    total = 1600 if tier == "quick" else 160000
+    for j in range(i, total, n):
+        hb.beat()
+        key = f"C07-enc-{seed}-{j}"
+        rng = random.Random(key)
+        da = rng.choice(DIALECTS)
+        cfga = gen_config(rng, da)
+        gm = gen_module(rng, da, cfga["width"], pvl.collections, max_depth=2)
+        try:
+            with common.cpu_limit(60):
+                t0 = make_encoder(pvl, da, cfga).encode(gm.module)
+        except (ValueError, TypeError):
+            rec.count("encoder_source_refused")
+            continue
+        except common.CaseTimeout:
+            rec.inconc(f"CPU budget exceeded on case {key}")
+            continue
+        except Exception:
+            rec.count("encoder_source_raised_other")   # C01's subject
+            continue
+        rec.count(f"encoder_source[{da}]")
+        cycle(rec, pvl, t0, f"encoded-{da}:{key}", {"seed": key, "written_by": da,
+                                                    "cfg_written": cfga}, rng)
     files = corpus(pvl)
     for k, (name, text) in enumerate(files):
         if k % n != i:
@@ -203,6 +257,7 @@ def finish_kwargs(rec, tier):
     req = ["t0_loaded", "corpus_files", "loader_only[empty-value-placeholder]",
            "loader_only[leap-second-string]"]
     req += [f"stable[{d}]" for d in DIALECTS]
+    req += [f"encoder_source[{d}]" for d in DIALECTS]
     return dict(required_counters=req,
                 assumptions=["normalisation relation of DESIGN 3.7; set element "
                              "order canonicalised by a token-level comparison"])
